@@ -817,6 +817,8 @@ class ConfigParser(object):
     except ValueError:
       raise ConfigParserException("Error when parsing [Species] section. Could not convert value of '{}' into '{}'. Value is = {}".format(
         property_name, known_properties[property_name].__name__, v))
+    if isinstance(converted, float) and (math.isnan(converted) or math.isinf(converted)):
+      raise ConfigParserException("Error when parsing [Species] section. The value of '{}' must be a finite number. Value is = {}".format(property_name, v))
     return converted
 
   @property
@@ -836,6 +838,8 @@ class ConfigParser(object):
       if len(tokens) == 1:
         raise ConfigParserException("Error when parsing [Species] section. Keys should be of the form 'SPECIES_LABEL.PROPERTY_NAME'. Invalid key found: '{}'".format(k))
       species, property_name = [t.strip() for t in tokens]
+      if not species or not property_name:
+        raise ConfigParserException("Error when parsing [Species] section. Keys should be of the form 'SPECIES_LABEL.PROPERTY_NAME'. Invalid key found: '{}'".format(k))
       v = self._config_parser["Species"][k]
       v = self._convert_species_type(property_name, v)
       d.setdefault(species, {})[property_name] = v
